@@ -66,14 +66,16 @@ struct C03 : public Driver {
         if (dc.manyNames) { sc.on.insert("num-nocount"); sc.on.insert("num-any"); }
         if (dc.bigNum) { sc.on.insert("bigfmt"); sc.on.insert("valnum"); }
         if (g.chance(1, 3)) sc.on.insert("padsupp");
-        const bool gated = g.chance(1, 3); if (gated) { sc.on.insert("gate"); if (g.chance(1, 2)) sc.on.insert("num-gate"); }
+        const bool gated = g.chance(1, 3); if (gated) { sc.on.insert("gate"); if (g.chance(1, 2)) sc.on.insert("num-gate"); if (g.chance(1, 2)) sc.on.insert("sort-gate"); }
+        sc.dfVariant = (int)g.below(3);
+        const bool noslash = g.chance(1, 12); if (noslash) { sc.sysIdStyle = "noslash"; sc.useInclude = true; }
         { static const std::vector<std::string> langs = { "de", "fr", "en" }; static const std::vector<std::string> cases = { "", "upper-first", "lower-first" }; sc.sortLang = g.pick(langs); sc.sortCase = g.pick(cases); }
         sc.useImport = g.chance(1, 3); sc.useInclude = g.chance(1, 4); sc.docFn = g.chance(1, 3); sc.stripSpace = g.chance(1, 4); sc.dupExtPrefix = g.chance(1, 6);
         static const std::vector<std::string> encs = { "UTF-8", "UTF-8", "UTF-16", "ISO-8859-1", "US-ASCII", "windows-1252" };
         sc.encoding = g.pick(encs); sc.cdataElems = g.chance(1, 6);
         static const std::vector<std::string> orders = { "doc", "rk", "rev" }; sc.order = g.pick(orders);
         GenSS s = genStylesheet(g, sc, d);
-        p["doc"] = d.xml; p["xsl"] = s.xsl;
+        p["doc"] = d.xml; p["xsl"] = s.xsl; if (noslash) p["ss_sysid"] = "file:ss.xsl";     // a base URI with a scheme and no '/' in its path
         Json res = Json::object(); for (auto& kv : s.resources) res[kv.first] = kv.second; p["resources"] = res;
         Json feats = Json::array(); for (auto& f : s.features) feats.push(f); p["features"] = feats;
         // clock
@@ -100,7 +102,7 @@ struct C03 : public Driver {
             else if (r < 15) { o["op"] = "parse"; o["xerces"] = gf.chance(1, 2); o["docFault"] = srcFaultAt(gf, d.xml, destructive); }
             else if (r < 17) { o["op"] = "param-expr"; std::string e = gf.pick(exprPool()); SrcFault f = SrcFault::fromJson(srcFaultAt(gf, e, destructive)); o["expr"] = applySrcFault(e, f); o["faulted"] = f.destructive();
                 // a parameter value that makes a lazily evaluated global variable abort the transformation part-way
-                if (gated && gf.chance(2, 3)) { o["expr"] = gf.chance(1, 2) ? "'abort'" : "'badkey'"; o["faulted"] = true; } }
+                if (gated && gf.chance(2, 3)) { unsigned q = (unsigned)gf.below(3); o["expr"] = q == 0 ? std::string("'abort'") : q == 1 ? std::string("'badkey'") : "'" + d.ids[gf.below(std::min<size_t>(d.ids.size(), 14))] + "'"; o["faulted"] = true; } }
             else if (r < 19) { o["op"] = gf.chance(1, 2) ? "xpath-eval" : "xpath-capi"; std::string e = gf.pick(exprPool()); SrcFault f = SrcFault::fromJson(srcFaultAt(gf, e, destructive)); o["expr"] = applySrcFault(e, f); o["faulted"] = f.destructive(); o["docFault"] = srcFaultAt(gf, d.xml, destructive && gf.chance(1, 3)); }
             else { o["op"] = "capi-transform"; o["docFault"] = srcFaultAt(gf, d.xml, destructive && gf.chance(1, 2)); o["xslFault"] = srcFaultAt(gf, s.xsl, destructive && gf.chance(1, 2)); o["toHandler"] = gf.chance(1, 2); }
             ops.push(o);
@@ -130,13 +132,13 @@ struct C03 : public Driver {
         OpRes r; r.name = "transform:" + o.str("src") + ">" + o.str("ss") + ">" + o.str("target");
         XReq rq; rq.doc = plan.str("doc"); rq.xsl = plan.str("xsl"); rq.srcForm = o.str("src", "stream"); rq.ssForm = o.str("ss", "stream"); rq.tgtForm = o.str("target", "callback");
         rq.docFault = SrcFault::fromJson(o.at("docFault")); rq.xslFault = SrcFault::fromJson(o.at("xslFault")); rq.sinkFault = SinkFault::fromJson(o.at("sinkFault"));
-        rq.bufSize = (unsigned)o.num("buf", 512); rq.tblock = (unsigned)o.num("tblock", 1024);
+        rq.bufSize = (unsigned)o.num("buf", 512); rq.tblock = (unsigned)o.num("tblock", 1024); rq.ssSysId = plan.str("ss_sysid");
         env.fs.faults.clear(); env.fs.missing.clear(); env.fs.throwing.clear();
         if (o.has("resFault")) { const Json& rf = o.at("resFault"); std::string k = rf.str("kind"), nm = rf.str("name"); if (k == "missing") env.fs.missing.insert(nm); else if (k == "throwing") env.fs.throwing.insert(nm); else env.fs.faults[nm] = SrcFault::fromJson(rf.at("fault")); if (count) res.count("fault:res-" + k); }
         SimSink sink; const XalanCompiledStylesheet* cs = nullptr; bool compiledHere = false;
         if (rq.ssForm == "compiled") {
             // compile from the (possibly faulted) stylesheet bytes first; a failure there is the op's outcome
-            std::string seen = applySrcFault(rq.xsl, rq.xslFault); SimIStream is(seen, rq.xslFault, &env.fs.stats); XSLTInputSource in(&is, env.manager()); in.setSystemId(xs(std::string(SIM_BASE) + "ss.xsl", env.manager()).c_str());
+            std::string seen = applySrcFault(rq.xsl, rq.xslFault); SimIStream is(seen, rq.xslFault, &env.fs.stats); XSLTInputSource in(&is, env.manager()); in.setSystemId(xs(rq.ssSysId.empty() ? std::string(SIM_BASE) + "ss.xsl" : rq.ssSysId, env.manager()).c_str());
             env.fs.put("ss.xsl", rq.xsl);
             XformOut tmp;
             try { int st = env.T->compileStylesheet(in, cs); if (st != 0) { r.status = st; const char* e = env.T->getLastError(); r.err = e ? e : ""; r.errEmpty = r.err.empty(); return r; } compiledHere = true; }
@@ -164,7 +166,7 @@ struct C03 : public Driver {
         try {
             if (k == "compile") {
                 SrcFault f = SrcFault::fromJson(o.at("xslFault")); std::string seen = applySrcFault(plan.str("xsl"), f); SimIStream is(seen, f, &env.fs.stats);
-                XSLTInputSource in(&is, mm); in.setSystemId(xs(std::string(SIM_BASE) + "ss.xsl", mm).c_str()); env.fs.put("ss.xsl", plan.str("xsl"));
+                XSLTInputSource in(&is, mm); in.setSystemId(xs(plan.str("ss_sysid", std::string(SIM_BASE) + "ss.xsl"), mm).c_str()); env.fs.put("ss.xsl", plan.str("xsl"));
                 const XalanCompiledStylesheet* cs = nullptr; r.status = env.T->compileStylesheet(in, cs);
                 if (r.status != 0) { const char* e = env.T->getLastError(); r.err = e ? e : ""; r.errEmpty = r.err.empty(); } else if (cs) env.T->destroyStylesheet(cs);
                 if (count && !f.kind.empty()) res.count("fault:src-" + f.kind);
